@@ -155,6 +155,9 @@ TABLE.update({
     "c05_remapper_doubles.diff": ("contracts.c05", "_create_signal_remapper", None),
     "cdispatch_any_lowered_as_all.diff": ("contracts.cdispatch", "lower_expr", "class BundleAnyExpr"),
     "cdispatch_latch_write_as_plain_write.diff": ("contracts.cdispatch", "place_ir_operation", "class IRLatchWrite"),
+    "c09_place_xy_from_swapped_arguments.diff": ("contracts.c09", "_extract_place_coordinates", None),
+    "c09_place_value_materialised.diff": ("contracts.c09", "_lower_place_core", "3 arguments, prototype literal"),
+    "c09_place_properties_dropped.diff": ("contracts.c09", "_lower_place_core", "4 arguments"),
     "c08_preserved_shares_network_zero.diff": ("contracts.c12", "_restore_preserved_connection", None),
     "c08_preserved_routing_failure_ignored.diff": ("contracts.c12", "_restore_preserved_connection", None),
     "c08_preserved_span_doubled.diff": ("contracts.c12", "_restore_preserved_connection", None),
